@@ -82,10 +82,12 @@ func ruleL1(c *Ctx, rule string) {
 		var okv func(v ssa.Value, fs facts, seen map[ssa.Value]bool) bool
 		okv = func(v ssa.Value, fs facts, seen map[ssa.Value]bool) bool {
 			v = unspill(v)
-			if seen[v] {
-				return true
+			if _, isPhi := v.(*ssa.Phi); isPhi {
+				if seen[v] {
+					return true
+				}
+				seen[v] = true
 			}
-			seen[v] = true
 			switch x := v.(type) {
 			case *ssa.Const:
 				if x.Value != nil && x.Value.String() == "true" {
